@@ -1356,6 +1356,56 @@ fn grid() {
             }
             println!("Q vec_dedup_key_raw_parts_sweep | {} | same", if bad == 0 { "same".to_string() } else { format!("{}_cases_differ", bad) });
         }
+        // C15: replacing a vector wholesale (clone_from with a shorter, equal and longer source, plain
+        // assignment, clear + extend): every element the destination held is dropped exactly once, the
+        // source's elements are not dropped at all, the result holds clones of the source, in order
+        {
+            use std::cell::RefCell;
+            use std::rc::Rc;
+            struct D(u32, Rc<RefCell<Vec<u32>>>);
+            impl Drop for D { fn drop(&mut self) { self.1.borrow_mut().push(self.0); } }
+            impl Clone for D { fn clone(&self) -> D { D(self.0 + 1000, self.1.clone()) } }
+            let mut bad = 0usize;
+            for dl in 0..6u32 {
+                for sl in 0..6u32 {
+                    for how in 0..3 {
+                        let led = Rc::new(RefCell::new(Vec::new()));
+                        let mut dst: BVec<D> = BVec::new_in(&bump);
+                        for i in 0..dl { dst.push(D(i, led.clone())); }
+                        let mut src: BVec<D> = BVec::with_capacity_in(8, &bump);
+                        for i in 0..sl { src.push(D(100 + i, led.clone())); }
+                        match how {
+                            0 => dst.clone_from(&src),
+                            1 => { dst = src.clone(); }
+                            _ => { dst.clear(); dst.extend(src.iter().cloned()); }
+                        }
+                        let mut after = led.borrow().clone();
+                        after.sort();
+                        // clone_from may drop-and-replace or assign element-wise: clones made for the common
+                        // prefix may be dropped as well (ids >= 1000), the old elements must be, once each
+                        let old_dropped: Vec<u32> = after.iter().cloned().filter(|x| *x < 100).collect();
+                        let src_dropped = after.iter().any(|x| (100..1000).contains(x));
+                        let holds = dst.iter().map(|d| d.0).eq((0..sl).map(|i| 1100 + i));
+                        let src_ok = src.iter().map(|d| d.0).eq((0..sl).map(|i| 100 + i));
+                        if old_dropped != (0..dl).collect::<Vec<u32>>() || src_dropped || !holds || !src_ok {
+                            bad += 1;
+                            if bad <= 2 { println!("Q drops_once replace_whole how={} dst_len={} src_len={} | old_dropped={:?} src_dropped={} holds_clones={} | -", how, dl, sl, old_dropped, src_dropped as u8, holds as u8); }
+                        }
+                        led.borrow_mut().clear();
+                        drop(dst);
+                        drop(src);
+                        let mut fin = led.borrow().clone();
+                        fin.sort();
+                        let want: Vec<u32> = (0..sl).map(|i| 100 + i).chain((0..sl).map(|i| 1100 + i)).collect();
+                        if fin != want {
+                            bad += 1;
+                            if bad <= 2 { println!("Q drops_once replace_whole_final how={} dst_len={} src_len={} | dropped={:?} | {:?}", how, dl, sl, fin, want); }
+                        }
+                    }
+                }
+            }
+            println!("Q drops_once replace_whole_sweep | {} | same", if bad == 0 { "same".to_string() } else { format!("{}_cases_differ", bad) });
+        }
         // Option / Result collects into boxed slices and vectors from a source that fails more than once
         // and counts what is taken from it: which error comes back and how far the source was consumed
         // must be std's; and a source that is not fused (None first, items afterwards) yields nothing
